@@ -765,8 +765,8 @@ impl Family for C14 {
 
     fn runs(t: Tier) -> u64 {
         match t {
-            Tier::Quick => 200_000,
-            Tier::Thorough => 20_000_000,
+            Tier::Quick => 2_000_000,
+            Tier::Thorough => 100_000_000,
         }
     }
 
